@@ -26,7 +26,9 @@ import static_gen as sg     # noqa: E402
 import parse_msg            # noqa: E402
 
 LEVEL = "proof"
-REQUIRED = ["C10_symbols_exact", "C10_scopes_exact", "C10_once_exact"]
+REQUIRED = ["C10_symbols_exact", "C10_scopes_exact", "C10_once_exact", "C10_typing_check_exact", "C10_typing_sound",
+            "C10_congruence_sound", "C10_surjectivity_sound", "C10_enums_sound", "C10_accept_sound_partial",
+            "C10_reject_sound_symbols_partial", "C10_reject_sound_scopes_partial"]
 
 REQUIRES = ("From Coq Require Import List NArith.\nFrom Static Require Import Model Run.\n"
             "Import ListNotations.\nOpen Scope N_scope.\nSet Printing Width 1000000.")
@@ -79,14 +81,17 @@ def decode(line):
     return (line.strip() or "EMPTY", "", 0)
 
 
-def run_driver_shard(binary, texts, k):
+def run_driver_shard(binary, texts, k, limit=None):
     scratch = os.path.join(CACHE, "c10-scratch", str(k))
     os.makedirs(scratch, exist_ok=True)
     out, rest = [], list(texts)
+    env = dict(os.environ)
+    if limit:
+        env["CLI_DRIVER_TIMEOUT_SECS"] = str(limit)
     while rest:
         inp = "".join(t.encode().hex() + "\n" for t in rest)
-        p = subprocess.run("ulimit -v 8000000; exec timeout 1800 %s %s" % (binary, scratch), shell=True,
-                           input=inp, stdout=subprocess.PIPE, text=True)
+        p = subprocess.run("ulimit -v 8000000; exec timeout 3000 %s %s" % (binary, scratch), shell=True,
+                           input=inp, stdout=subprocess.PIPE, text=True, env=env)
         got = [decode(l) for l in p.stdout.splitlines()]
         out.extend(got)
         if len(got) >= len(rest):
@@ -106,6 +111,13 @@ def run_compiler(binary, texts, nshard=16):
     res = [None] * len(texts)
     for i, o in enumerate(outs):
         res[i::nshard] = o
+    # the 20 s watchdog of the driver also fires when the machine is busy: cases without an answer are
+    # run again one after the other with a generous limit before they count
+    again = [i for i, r in enumerate(res) if r is None or r[0] in ("HANG", "DIED")]
+    for i in again[:40]:
+        r = run_driver_shard(binary, [texts[i]], "retry", limit=300)
+        if r:
+            res[i] = r[0]
     return res
 
 
@@ -210,11 +222,66 @@ def has_nested_last_fork(text):
 
 
 def has_empty_match(text):
+    """Is there a `match t {}` with statements after it in the same block?  (finding empty-match-dead-code)"""
     try:
         prog = sg.parse_program(text)
     except Exception:
         return False
-    return any(s.k == "match" and not s.cases for d in prog if d.k == "rule" for s, _ in sg.walk_stmts(d.body))
+    for d in prog:
+        if d.k != "rule":
+            continue
+        for s, body in sg.walk_stmts(d.body):
+            if s.k == "match" and not s.cases and body[-1] is not s:
+                return True
+    return False
+
+
+def has_leaking_discriminee(text):
+    """Is a match whose term introduces a variable the first statement of a branch block?
+    (finding match-discriminee-scope-leak)"""
+    try:
+        prog = sg.parse_program(text)
+    except Exception:
+        return False
+    for (rule, body, i, s, scope) in sg.sites(prog):
+        if s.k == "branch":
+            for b in s.blocks:
+                if b and b[0].k == "match" and any(v not in scope for v in sg.term_vars(b[0].term)):
+                    return True
+    return False
+
+
+def has_self_defined(text):
+    """Is there a `then x := t!` whose variable x occurs in t?  (finding then-defined-self-reference)"""
+    try:
+        prog = sg.parse_program(text)
+    except Exception:
+        return False
+    for d in prog:
+        if d.k != "rule":
+            continue
+        for s, _ in sg.walk_stmts(d.body):
+            if s.k == "then" and s.atom[0] == "def" and s.atom[1] is not None and s.atom[1].k == "var" \
+                    and s.atom[1].name in sg.term_vars(s.atom[2]):
+                return True
+    return False
+
+
+def has_conflicting_redeclaration(text):
+    """Is a predicate / function name declared twice with different signatures?  (finding
+    dup-func-blames-types)"""
+    try:
+        prog = sg.parse_program(text)
+    except Exception:
+        return False
+    seen = {}
+    for d in prog:
+        if d.k in ("pred", "func"):
+            sig = (d.k, tuple(d.args), d.res)
+            if d.name in seen and seen[d.name] != sig and seen[d.name][0] == d.k:
+                return True
+            seen.setdefault(d.name, sig)
+    return False
 
 
 def judge(case):
@@ -232,6 +299,8 @@ def judge(case):
             why = "compiler accepts an ill-formed program; reference: %s" % names(m)
             if has_empty_match(case["text"]):
                 key = "empty-match-dead-code"
+            elif all(cl == sg.CODE["VariableOccursOnlyOnce"] for cl, _ in m) and has_leaking_discriminee(case["text"]):
+                key = "match-discriminee-scope-leak"
     elif c[0] == "ERR":
         code = sg.message_class(c[1])
         if not m:
@@ -246,11 +315,11 @@ def judge(case):
         elif not any(cl == code and c[2] in ls for cl, ls in m):
             why = "compiler reports %s at line %d, which holds no defect of this class: %s" % (
                 sg.CLASSES[code], c[2], names(m))
-            if code == sg.CODE["SymbolDeclaredTwice"]:
+            if code == sg.CODE["SymbolDeclaredTwice"] and has_conflicting_redeclaration(case["text"]):
                 key = "dup-func-blames-types"
     else:
         why = "compiler neither accepts nor reports an error: %s %s" % (c[0], c[1])
-        if c[0] == "PANIC" and "should be in image" in c[1]:
+        if c[0] == "PANIC" and "should be in image" in c[1] and has_self_defined(case["text"]):
             key = "then-defined-self-reference"
     return bug, why, key
 
@@ -272,13 +341,16 @@ def run(ctx):
     if ok:
         ctx.coq_props("Static", "Props_C10.v", required=REQUIRED)
     binary = front_end_binary(ctx)
-    corpus = load_corpus()
-    gen, made = gen_cases(ctx)
-    cases = corpus + gen
-    if ctx.replay:
+    if getattr(ctx, "replay", None):
         r = json.load(open(ctx.replay))
-        cases = [{"kind": "replay", "name": "replay", "text": r["text"], "gallina": r["gallina"],
-                  "intent": tuple(r["intent"]) if isinstance(r.get("intent"), list) else r.get("intent")}]
+        corpus, gen, made = [], [{"kind": "replay", "name": r.get("case", "replay"), "text": r["text"],
+                                  "gallina": r["gallina"],
+                                  "intent": tuple(r["intent"]) if isinstance(r.get("intent"), list)
+                                  else r.get("intent")}], {}
+    else:
+        corpus = load_corpus()
+        gen, made = gen_cases(ctx)
+    cases = corpus + gen
     ctx.cov["rule"] = ("corpus first (error tests and positive theories of /repo inside the fragment, finding cases), "
                        "then generated well-formed programs (size 1-2: <= 3 rules, <= 12 statements and <= 3 "
                        "branch/match statements per rule, nesting <= 2), single-defect mutants (classes in "
@@ -301,7 +373,8 @@ def run(ctx):
         c["compiler"] = r if r is not None else ("DIED", "no answer", 0)
     per = {}
     outcomes = {"OK": 0, "ERR": 0}
-    nbug = nviol = 0
+    nbug = nviol = nknown_shape = 0
+    nviol_before = len(ctx.violations)
     for c in cases:
         nontrivial = any(k in c["text"] for k in ("then ", "branch", "match"))
         ctx.count("case", c["text"] if nontrivial else None, nontrivial)
@@ -328,9 +401,11 @@ def run(ctx):
             continue
         if why is not None:
             nviol += 1
-            if c["kind"] == "corpus" and c.get("finding_key"):
-                key = c["finding_key"]
-            if nviol <= 12 or key is not None:
+            # a finding key is attached only when the input has the shape of that finding (see judge);
+            # every other disagreement is a plain violation
+            if key is not None:
+                nknown_shape += 1
+            if nviol - nknown_shape <= 12 or key is not None:
                 ctx.violation(replay, why, finding_key=key)
     classes_seen = {}
     for c in cases:
@@ -348,5 +423,6 @@ def run(ctx):
             break
     ctx.obligation("agreement:generator-reference", nbug == 0, "%d cases with an intended verdict" %
                    sum(1 for c in cases if c["intent"] is not None))
-    ctx.obligation("agreement:reference-compiler", nviol == 0 or all(v for v in []),
-                   "%d cases, %d disagreements (known findings included)" % (len(cases), nviol))
+    fresh = len(ctx.violations) - nviol_before
+    ctx.obligation("agreement:reference-compiler", fresh == 0,
+                   "%d cases, %d disagreements, %d of them not covered by known findings" % (len(cases), nviol, fresh))
